@@ -4,13 +4,14 @@ from __future__ import annotations
 
 import ast
 
-from mpsa.cfg import calls_in, walk_shallow
+from mpsa.cfg import calls_in, header_expr, walk_shallow
+from mpsa.flow import path_avoiding, reachable
 from mpsa.loader import AnchorError, dotted, norm_text
 from mpsa.match import Scope, call_dotted, ctor_tags, is_name, kwarg, method_of, walk_deep_func, walk_shallow_func
 from mpsa.report import Checker
 
 from . import fifo
-from .common import QUEUES, STREAMER
+from .common import QUEUES, STREAMER, build_cfg
 
 
 def declare(ck: Checker, p='C01'):
@@ -34,6 +35,8 @@ def run(ck: Checker):
     fifo.check_fifo_class(ck, 'C01-4', m)
     check_singlelane(ck, 'C01-4')
     check_submit_wrappers(ck, 'C01-6')
+    ck.rule('C01-7', 'the executors of mpservice.concurrent.futures hand calls through unchanged: submit forwards fn, *args, **kwargs on both branches of loud_exception; the loud wrappers return the value and re-raise the exception (AGREE+EXITS)', minimum=4)
+    check_executor_wrappers(ck, 'C01-7')
 
 
 # ----------------------------------------------------------------------
@@ -174,3 +177,54 @@ def check_submit_wrappers(ck: Checker, rid: str):
                 if len(ys) == 1 and is_name(ys[0].value, v_) and len(n.body) == 1:
                     ok = True
         ck.ob(rid, f, c, ok, f'every output of {callee} is yielded on, unchanged' if ok else f'the stream built by `{callee}(…)` is not yielded from (or its outputs are altered / filtered on the way): parmap would produce nothing, or not one output per input')
+
+
+def check_executor_wrappers(ck: Checker, rid: str):
+    """mpservice.concurrent.futures: the drop-in executors hand the call through unchanged -- `submit` forwards the
+    function, its positional and its keyword arguments on both branches of `loud_exception`; the loud wrapper returns
+    `fn(*args, **kwargs)` and, having printed, re-raises the very exception (a wrapper that swallows it would turn a
+    failed call into the result None)."""
+    from .common import FUTURES
+
+    mod = ck.repo.module(FUTURES)
+    for cname, loud in (('ThreadPoolExecutor', '_loud_thread_function'), ('ProcessPoolExecutor', '_loud_process_function')):
+        f = mod.cls(cname).method('submit')
+        a = f.node.args
+        pos = [x.arg for x in a.posonlyargs + a.args]
+        fnp = pos[1] if len(pos) > 1 else None
+        va, kw = (a.vararg.arg if a.vararg else None), (a.kwarg.arg if a.kwarg else None)
+        rets = [n for n in walk_shallow_func(f.node) if isinstance(n, ast.Return)]
+        probs = []
+        if not (fnp and va and kw):
+            probs.append('submit does not take (fn, *args, **kwargs)')
+        if len(rets) < 2:
+            probs.append('submit does not return the future on both branches')
+        for r in rets:
+            c = r.value
+            if not (isinstance(c, ast.Call) and method_of(c)[1] == 'submit' and isinstance(method_of(c)[0], ast.Call) and dotted(method_of(c)[0].func) == 'super'):
+                probs.append(f'L{r.lineno}: does not return super().submit(…)')
+                continue
+            args = list(c.args)
+            if args and is_name(args[0], loud):
+                args = args[1:]
+            ok = len(args) == 2 and is_name(args[0], fnp) and isinstance(args[1], ast.Starred) and is_name(args[1].value, va) and any(k.arg is None and is_name(k.value, kw) for k in c.keywords) and not any(k.arg for k in c.keywords)
+            if not ok:
+                probs.append(f'L{r.lineno}: `{norm_text(c)[:70]}` does not forward (fn, *args, **kwargs) unchanged')
+        ck.ob(rid, f, rets[0] if rets else f.node, not probs, '; '.join(probs) if probs else f'{cname}.submit forwards fn, *args, **kwargs unchanged (through `{loud}` when loud)')
+        g = mod.func(loud)
+        ga = g.node.args
+        gp = [x.arg for x in ga.posonlyargs + ga.args]
+        cfg = build_cfg(g, ck.repo, lambda node: {'Exception'} if header_expr(node) is not None and any(is_name(c.func, gp[0]) for c in calls_in(header_expr(node))) else set())
+        ck.analysed_func(g, cfg)
+        probs = []
+        rets = [n for n in cfg.nodes if isinstance(n.ast, ast.Return)]
+        if not (len(rets) == 1 and isinstance(rets[0].ast.value, ast.Call) and is_name(rets[0].ast.value.func, gp[0]) and len(rets[0].ast.value.args) == 1 and isinstance(rets[0].ast.value.args[0], ast.Starred) and any(k.arg is None for k in rets[0].ast.value.keywords)):
+            probs.append('the wrapper does not return fn(*args, **kwargs)')
+        # a failing call leaves the wrapper as that exception: every path from the handler ends in a bare raise
+        for h in [n for n in cfg.nodes if n.kind == 'except']:
+            if path_avoiding(cfg, [h.id], {cfg.exit_return}, avoid=set()) is not None:
+                probs.append('after printing, the wrapper can return normally: the failed call would yield None as its result instead of raising')
+            bad = [k for k in reachable(cfg, [h.id]) if isinstance(cfg.nodes[k].ast, ast.Raise) and cfg.nodes[k].ast.exc is not None]
+            if bad:
+                probs.append('the wrapper raises something else than the original exception')
+        ck.ob(rid, g, rets[0].ast if rets else g.node, not probs, '; '.join(probs) if probs else f'`{loud}` returns the call\'s value and re-raises its exception unchanged')
